@@ -19,7 +19,7 @@ class Contract:
     def __init__(self, key, params=None, returns=None, requires=(), ensures=(), modifies=(), raises=None,
                  may_raise=(), loops=None, allocates=False, virtual=False, trusted=None, locals=None,
                  ensures_raise=None, note=None, self_cls=None, yields=None, pure=False, ghost_init=(), ghost_after=None,
-                 ghost_before=None, internal_ensures=(), assumed_ensures=(), slice_names=None):
+                 ghost_before=None, internal_ensures=(), assumed_ensures=(), slice_names=None, dropped_locals=()):
         self.key = key                      # 'module.func' or 'Class.method'
         self.params: Dict[str, str] = dict(params or {})
         self.returns: Optional[str] = returns
@@ -45,6 +45,7 @@ class Contract:
         self.assumed_ensures: List[str] = list(assumed_ensures)    # coupling facts assumed at call sites only (trusted)
         # def-use slice: verify only the top-level statements of the body that assign one of these names
         self.slice_names = list(slice_names) if slice_names else None
+        self.dropped_locals = list(dropped_locals)      # progress bookkeeping variables dropped by extraction
 
 
 class Registry:
